@@ -18,6 +18,9 @@ type DestCfg struct {
 	// Outcomes: per record tag "ok" (default) or an error text (the record is rejected).
 	Outcomes map[string]string `json:"outcomes,omitempty"`
 	OpenErr  string            `json:"open_err,omitempty"`
+	// OpenDelayMs: Open takes this long (a DLQ / destination that is still opening when records are already rejected);
+	// the wait ends early with the context's error when the caller's context is cancelled
+	OpenDelayMs int `json:"open_delay_ms,omitempty"`
 	// WriteErrAt: when the k-th record (1-based, over the run) arrives the stream is closed with WriteErr.
 	WriteErrAt int    `json:"write_err_at,omitempty"`
 	WriteErr   string `json:"write_err,omitempty"`
@@ -87,7 +90,16 @@ func (d *Dest) Configure(context.Context, pconnector.DestinationConfigureRequest
 	return pconnector.DestinationConfigureResponse{}, nil
 }
 
-func (d *Dest) Open(context.Context, pconnector.DestinationOpenRequest) (pconnector.DestinationOpenResponse, error) {
+func (d *Dest) Open(ctx context.Context, _ pconnector.DestinationOpenRequest) (pconnector.DestinationOpenResponse, error) {
+	if d.Cfg.OpenDelayMs > 0 {
+		d.W.Log.Add("Opening", "conn", d.Cfg.ID)
+		select {
+		case <-time.After(time.Duration(d.Cfg.OpenDelayMs) * time.Millisecond):
+		case <-ctx.Done():
+			d.W.Log.Add("Open", "conn", d.Cfg.ID, "key", d.Cfg.ID, "kind", map[bool]string{true: "dlq", false: "destination"}[d.IsDLQ], "ok", false)
+			return pconnector.DestinationOpenResponse{}, ctx.Err()
+		}
+	}
 	d.mu.Lock()
 	defer d.mu.Unlock()
 	kind := "destination"
